@@ -24,6 +24,8 @@ let rec subs d = function
 
 let rec take n = function [] -> [] | x :: t -> if n <= 0 then [] else x :: take (n - 1) t
 
+let rec drop n l = if n <= 0 then l else match l with [] -> [] | _ :: t -> drop (n - 1) t
+
 let init () =
   register "img_new" (function
     | [bpp; alt; w; h; len] -> (
@@ -48,10 +50,18 @@ let init () =
         match mk bpp alt w h len seed with
         | Datatypes.Coq_inr n -> "err " ^ z_out n
         | Datatypes.Coq_inl img ->
-            let d = subs (Raw img) (take (4 * int_of_string nsub) rest) in
+            let ns = int_of_string nsub in
+            let d = subs (Raw img) (take (4 * ns) rest) in
             let im = if mode = "1" then image_with_center d (pt ox oy) else image_new d (pt ox oy) in
             let bb = rc tx ty tw th in
-            let calls = image_draw im in
+            let calls, box =
+              if mode = "2" then
+                (* ImageDrawable::draw_sub_image(target, area) called directly *)
+                match drop (4 * ns) rest with
+                | [x; y; w; h] -> (d_draw_sub_image d (rc x y w h), rect_zero)
+                | _ -> failwith "BAD-ARGS"
+              else (image_draw im, image_box im)
+            in
             let tbl = Hashtbl.create 64 in
             Stdlib.List.iter
               (fun c ->
@@ -91,5 +101,5 @@ let init () =
                        calls)
             in
             let s = d_size d in
-            "SZ " ^ z_out s.sw ^ " " ^ z_out s.sh ^ " BOX " ^ src (image_box im) ^ " MAP " ^ smap ^ log ^ pulled)
+            "SZ " ^ z_out s.sw ^ " " ^ z_out s.sh ^ " BOX " ^ src box ^ " MAP " ^ smap ^ log ^ pulled)
     | _ -> "BAD-ARGS")
